@@ -27,8 +27,8 @@ func init() {
 		RaceShards: 8,
 		RaceProcs:  4,
 		Technique:  "purity snapshots and random call histories against per-(packet, operation) baselines; Go race detector over shared-object workloads with an unsynchronised monitor",
-		Rule: "(1) purity: each of Marshal, MarshalSize, DestinationSSRC, String, Header and Unmarshal on generated packets of all 16 types / their encodings and mutants, with deep snapshots of the packet and the input buffer before and after; " +
-			"(2) histories: random call histories (length <= 60, repetitions, interleaved over up to 4 packets, decoding again into a reset variable) with every result compared with the baseline of that (packet, operation); " +
+		Rule: "(1) purity: each of Marshal, MarshalSize, DestinationSSRC, String, Header and Unmarshal on packets of all 16 types in three flavours (built in memory; obtained from the own decoder, aliasing an input buffer that is a prefix of a larger caller-owned array; built with spare capacity and sentinels in every slice), with snapshots of the packet, the input buffer, the whole caller-owned array and a digest of every slice up to its capacity before and after; " +
+			"(2) histories: random call histories (length <= 60, repetitions, interleaved over up to 4 packets, decoding again into a reset variable) with every result compared with the baseline of that (packet, operation); baselines obtained in the long-lived worker compared with the same calls made first thing in a fresh child process; " +
 			"(3) concurrency: G in {2,8,16,64} goroutines x GOMAXPROCS in {1,2,4,16} running PRNG-determined mixes of read-only operations on shared packets, Unmarshal of shared buffers into private packets and any operation on private clones, under the race detector, results compared with the sequential baselines; " +
 			"non-trivial = an operation whose result was compared with a baseline; distinct by digest of (operation, object, history position) resp. of the object set of a concurrent run",
 		Assumptions: []string{
